@@ -319,7 +319,7 @@ def job_pow(ctx, lo, hi):
     ctx.sample({'pow': {'axis': _axang_cases()[lo][1].tolist(), 'angle': _axang_cases()[lo][2], 'exponents': EXPO}})
 
 
-SEQ_ANG = [-2.4, -0.6, 1e-3, 0.9, 3.0]
+SEQ_ANG = [-2.4, -0.6, 0.0, 1e-3, 0.9, 3.0]      # an exactly zero angle inside a sequence is a null rotation, not the end of the sequence
 ELEM = {'x': rq.Rx, 'y': rq.Ry, 'z': rq.Rz}
 
 
